@@ -112,6 +112,22 @@ def fam_c07(tier, seed):
         sc["tags"] = ["queue", "unblock-with-pollers", "recv:" + "+".join(combo)]
         scs.append(sc)
         k += 1
+    # a receive call that STARTS at the very instant a request arrives: the check of the queue and the going to
+    # sleep must be one critical section (explored with the systematic single-demotion scheduler, tag "demote")
+    for combo in (("timed1",), ("timedloop",), ("recv",), ("iter",), ("recv", "timed1"), ("timed1", "timed1"), ("tryrecv",)):
+        for x in (0, 3 * MS):
+            for nreq in (1, 2):
+                apps = []
+                for r in combo:
+                    a = recvs[r]()
+                    if x:
+                        a = {"prog": [{"op": "sleep", "ns": x}] + a["prog"]}
+                    apps.append(a)
+                cc = [simple_conn(0, nreq, at_ns=x)]
+                sc = scenario("C07-i%03d" % k, "C07", cc, apps, horizon_ms=4 * T + 20)
+                sc["tags"] = ["queue", "same-instant", "demote", "recv:" + "+".join(combo)]
+                scs.append(sc)
+                k += 1
     for combo, conns in plans:
         apps = [recvs[r]() for r in combo]
         cc = [simple_conn(c, nreq, at_ns=off, gap_ns=rng.choice([0, 0, 400_000])) for c, (off, nreq) in enumerate(conns)]
@@ -694,6 +710,12 @@ def _bad_heads():
         ("expect-bad-v10", "r417", b"GET @URL@ HTTP/1.0\r\nHost: x\r\nConnection: keep-alive\r\nExpect: 200-ok\r\n\r\n"),
         ("expect-case-v10", "r417", b"POST @URL@ HTTP/1.0\r\nexpect: 100-CONTINUE-please\r\nContent-Length: 0\r\n\r\n"),
         ("expect-with-body", "r417", b"POST @URL@ HTTP/1.1\r\nHost: x\r\nExpect: nope\r\nContent-Length: 3\r\n\r\nabc"),
+        # the refusal must not wait for a body the client is holding back until it has the verdict
+        ("expect-body-withheld-5", "r417", b"POST @URL@ HTTP/1.1\r\nHost: x\r\nExpect: nope\r\nContent-Length: 5\r\n\r\n"),
+        ("expect-body-withheld-1024", "r417", b"POST @URL@ HTTP/1.1\r\nHost: x\r\nContent-Length: 1024\r\nExpect: 100-continue, nope\r\n\r\n"),
+        ("expect-body-withheld-5000", "r417", b"PUT @URL@ HTTP/1.1\r\nHost: x\r\nExpect: 101-switch\r\nContent-Length: 5000\r\n\r\n"),
+        ("expect-body-withheld-chunked", "r417", b"POST @URL@ HTTP/1.1\r\nHost: x\r\nExpect: nope\r\nTransfer-Encoding: chunked\r\n\r\n"),
+        ("expect-body-withheld-v10", "r417", b"POST @URL@ HTTP/1.0\r\nConnection: keep-alive\r\nExpect: nope\r\nContent-Length: 7\r\n\r\n"),
         ("no-colon-v10", "r400", b"GET @URL@ HTTP/1.0\r\nConnection keep-alive\r\n\r\n"),
         ("nonascii-v10", "close", b"GET @URL@ HTTP/1.0\r\nX: \xe9\r\n\r\n"),
         ("empty-line-first", "r400", b"\r\nGET @URL@ HTTP/1.1\r\nHost: x\r\n\r\n"),
@@ -1035,6 +1057,29 @@ def fam_c02(tier, seed):
     for sfx in suffixes:
         special.append(Msg(target_suffix=sfx, headers=[("Host", "x")]))
     scs.append(flush(special, k, ["special"]))
+    k += 1
+    # the headers the library itself interprets, in spellings that keep their meaning: what it hands over is
+    # still what was sent, not a normalised form
+    interp = [
+        Msg(headers=[("Host", "verif"), ("Connection", "Keep-Alive")]),
+        Msg(headers=[("Host", "verif"), ("Connection", "KEEP-ALIVE, Foo")]),
+        Msg(version="1.0", headers=[("Host", "verif"), ("Connection", "Keep-Alive")]),
+        Msg(method="POST", framing="chunked", body_len=7, chunks=[4], headers=[("Host", "verif"), ("Transfer-Encoding", "Chunked")]),
+        Msg(method="POST", framing="chunked", body_len=3, headers=[("Host", "verif"), ("TRANSFER-ENCODING", "CHUNKED")]),
+        Msg(method="POST", framing="cl", body_len=5, headers=[("Host", "verif"), ("Content-Length", "05")]),
+        Msg(method="POST", framing="cl", body_len=3, expect="100-Continue", headers=[("Host", "verif"), ("Expect", "100-Continue"), ("content-length", "3")]),
+        Msg(headers=[("TE", "Trailers, Deflate;q=0.5"), ("Content-Type", "Text/Plain; Charset=UTF-8"), ("Upgrade", "WebSocket"), ("Host", "Verif.Example:80")]),
+        Msg(method="POST", framing="cl", body_len=2000, headers=[("Host", "verif"), ("CONTENT-LENGTH", "2000"), ("Connection", "Keep-Alive")]),
+        Msg(headers=[("Host", "verif"), ("Connection", "CLOSE")]),
+    ]
+    scs.append(flush(interp, k, ["interpreted-headers"]))
+    k += 1
+    interp2 = [
+        Msg(version="1.0", headers=[("Host", "verif"), ("Connection", "KEEP-ALIVE")]),
+        Msg(headers=[("Host", "verif"), ("Connection", "Keep-Alive"), ("Accept", "*/*")]),
+        Msg(headers=[("Host", "verif"), ("Connection", "foo, Close")]),
+    ]
+    scs.append(flush(interp2, k, ["interpreted-headers"]))
     k += 1
     # the wire form of Msg.build writes "name: value"; values that start with OWS symbols are already
     # in rawv, so the single space after the colon is just one more optional whitespace
